@@ -465,13 +465,36 @@ def check_lookup_euclid(ctx, g, X, cid, nq):
                            "d_min": Rq.min()}, cid)
 
 
+def as_given(axes, r):
+    """The axes as a caller may hold them: per axis a float64 / float32 array,
+    an integer array or a plain list (integers where the values allow)."""
+    out, how = [], []
+    for a in axes:
+        whole = all(float(v).is_integer() for v in a)
+        forms = ["f8", "f8", "f4", "list"] + (["i8", "i4", "intlist"]
+                                               if whole else [])
+        f = forms[int(r.integers(0, len(forms)))]
+        how.append(f)
+        if f == "list":
+            out.append([float(v) for v in a])
+        elif f == "intlist":
+            out.append([int(v) for v in a])
+        else:
+            out.append(np.array(a, dtype=np.dtype(f)))
+    return out, how
+
+
 def check_rect(ctx, Grid, GeoGrid, axes, cid):
     d = len(axes)
-    case = {"axes": axes}
+    given, how = as_given(axes, ctx.rng("axfmt", cid))
+    case = {"axes": axes, "axis_types": how}
+    if len({h[0] for h in how}) > 1:
+        ctx.count("rect_mixed_axis_types")
     want = ref.product_multiset(axes)
     nprod = len(want)
     ok, S = ctx.call(Grid.coord_sequence_from_rect_grid,
-                     [np.array(a, dtype=float) for a in axes])
+                     [a.copy() if isinstance(a, np.ndarray) else list(a)
+                      for a in given])
     ctx.evals()
     if not ok:
         ctx.violation("coord_sequence_from_rect_grid:raises:"
@@ -497,8 +520,8 @@ def check_rect(ctx, Grid, GeoGrid, axes, cid):
 
     cmp(S, "coord_sequence_from_rect_grid")
     ok, g = ctx.call(Grid.RegularGrid, np.arange(3),
-                     [np.array(a, dtype=float) for a in axes],
-                     silence_level=3)
+                     [a.copy() if isinstance(a, np.ndarray) else list(a)
+                      for a in given], silence_level=3)
     ctx.evals()
     if not ok:
         ctx.violation(f"Grid.RegularGrid:raises:{type(g).__name__}:dim{d}",
@@ -513,9 +536,11 @@ def check_rect(ctx, Grid, GeoGrid, axes, cid):
     if d == 2:
         la = np.array(axes[0], dtype=float)
         lo = np.array(axes[1], dtype=float)
-        ok, g2 = ctx.call(GeoGrid.RegularGrid, np.arange(3), (la, lo),
-                          silence_level=3)
-        ok2, cs = ctx.call(GeoGrid.coord_sequence_from_rect_grid, la, lo)
+        gla, glo = [np.asarray(a) for a in given]
+        ok, g2 = ctx.call(GeoGrid.RegularGrid, np.arange(3),
+                          (gla.copy(), glo.copy()), silence_level=3)
+        ok2, cs = ctx.call(GeoGrid.coord_sequence_from_rect_grid,
+                           gla.copy(), glo.copy())
         ctx.evals(2)
         if not ok or not ok2:
             ctx.violation("GeoGrid.RegularGrid:raises",
@@ -534,9 +559,9 @@ def check_rect(ctx, Grid, GeoGrid, axes, cid):
                               {**case, "lat_seq": seqs[0],
                                "lon_seq": seqs[1]}, cid)
             if not (np.array_equal(np.asarray(cs[0], float),
-                                   np.repeat(la, len(lo))) and
+                                   np.repeat(gla.astype(float), len(lo))) and
                     np.array_equal(np.asarray(cs[1], float),
-                                   np.tile(lo, len(la)))):
+                                   np.tile(glo.astype(float), len(la)))):
                 ctx.violation("GeoGrid.coord_sequence_from_rect_grid:"
                               "order-not-lat-major", case, cid)
             g = g2.grid()
